@@ -331,6 +331,8 @@ pub fn case_strategy() -> BoxedStrategy<AiCase> {
         1 => Just("ünïcödé 日本語 😀 \u{a0}nbsp".to_string()),
         1 => Just("id:12 then id:7 tail 99".to_string()),
         1 => Just("k = 5 = -3".to_string()),
+        1 => Just("ends with ideographic space\u{3000}".to_string()),
+        1 => Just("ends with nbsp\u{a0}".to_string()),
     ];
     let block = (text.clone(), proptest::collection::vec(text, 0..5), proptest::option::weighted(0.3, 0u8..5), 0u8..16, proptest::bool::weighted(0.2), 0u8..3, proptest::bool::weighted(0.15)).prop_map(
         |(condition, lines, pattern, reply, warning, file, multiline_condition)| {
